@@ -1,5 +1,5 @@
 """Registry: for every property, its Lean modules, case generators and comparison rules."""
-from . import gen_asm, gen_vm
+from . import gen_asm, gen_vm, gen_types
 
 KERNEL = "Lean 4.33 kernel; axioms allowed: propext, Classical.choice, Quot.sound (audited per theorem)"
 TIE = "hand-written Lean model tied to /repo by the differential harness (real crates in-process vs compiled Lean driver)"
@@ -183,4 +183,38 @@ PROPS["C12"] = dict(
          "fails after marshalling",
     trusted=VM_TRUSTED + ["SHA-256 in the Lean driver is unverified code validated against sha2 on every run; ed25519/secp256k1 answers are tables computed by the harness with ed25519-dalek / libsecp256k1 (the primitives are parameters of the model)"],
     assumptions=["correctness of SHA-256, ed25519 and ECDSA recovery themselves is outside the statement (the property is agreement with the hash/sign crates)"],
+)
+
+
+TYPES_TRUSTED = [KERNEL, TIE, "gen/consts_from_rust.py (limits scraped from the sources)"]
+
+PROPS["C16"] = dict(
+    modules=["Essential.Props.C16"],
+    gen=gen_types.c16_cases,
+    model_is_spec=True,
+    project=lambda out: out.split(" ")[0],
+    nontrivial=lambda body, out: out.startswith("ok") or out.startswith("err"),
+    exhaustive="every limit at limit-1, limit, limit+1 (solutions, slots, slot size, total mutations in 10 splits, key size, value size, nodes x edges 5x5, predicates), duplicate-slot patterns, error-precedence combinations",
+    rule="cases: sets/predicates/contracts at, just below and just above every limit, splits of the mutation total over several "
+         "solutions, duplicate slots within a solution / across solutions of one contract / across contracts, several limits "
+         "exceeded at once, all limits reached at once, random small sets; compared: accept / reject (the error variant is "
+         "correspondence detail); oracle: the documented rule restated in the harness; non-trivial = every distinct case",
+    trusted=TYPES_TRUSTED,
+    assumptions=["'no slot mutated twice' is the set-wide rule per (contract, key) required by C04 (it implies the per-solution clause of the statement; proved as check_set_no_solution_dup)",
+                 "computed_set_valid (the set returned by check_and_compute still satisfies the rule) is proved and checked with the checker model (C04)"],
+)
+
+
+PROPS["C18"] = dict(
+    modules=["Essential.Props.C18"],
+    gen=gen_types.c18_cases,
+    model_is_spec=True,
+    nontrivial=lambda body, out: out.startswith("ok") or out.startswith("err") or out.startswith("some") or out.startswith("["),
+    exhaustive="node_edges for all 5^3 edge_start patterns of 3 nodes x 4 indices; decode_mutation(s) on all word strings of length <= 3 (quick) / <= 4 (thorough) over 8 boundary words",
+    rule="cases: predicates of 0..1001 nodes/edges with any edge_start incl. the leaf marker (encode, decode of valid / truncated / "
+         "extended / random bytes), node_edges for every index, mutation lists (encode, decode of the encoding, decode of arbitrary "
+         "words); oracles: decode(encode(x)) = x, encoded_size = length, on the real code; non-trivial = every distinct case with a "
+         "defined result",
+    trusted=TYPES_TRUSTED,
+    assumptions=["JSON text <-> tree and the serde derive glue are trusted libraries; the serde data-model round trips are compared byte-for-byte (C18 serde part)"],
 )
